@@ -139,6 +139,35 @@ func (g *G) wideDoc() *vdoc.Doc {
 	return d
 }
 
+// NumLookDoc: a document whose text and attribute values LOOK like numbers: padded with XPath whitespace (number),
+// padded with other Unicode white space or controls (NaN), signs, exponents, separators.
+func (g *G) NumLookDoc(max int) *vdoc.Doc {
+	saved := g.Texts
+	g.Texts = []string{"7", " 7", "7 ", "\t7\n", "\u00a07", "7\u00a0", "\f7", "7\u2003", "\v7", "+7", "7.", ".7", "7e0", "0x7", "7,0", "07", "-7", "- 7", "7-", ""}
+	d := g.Doc(max)
+	g.Texts = saved
+	return d
+}
+
+// NumLookPred: a numeric comparison of the context node (or an attribute / child) with a small number, either way round.
+func (g *G) NumLookPred() *xast.Expr {
+	self := &xast.Expr{T: "path", Steps: []xast.Step{{Ax: "self", Nt: xast.NT{K: "node"}}}}
+	operand := []*xast.Expr{self, {T: "path", Steps: []xast.Step{{Ax: "attribute", Nt: xast.NT{K: "any"}}}},
+		{T: "path", Steps: []xast.Step{{Ax: "child", Nt: xast.NT{K: "text"}}}}}[g.R.Intn(3)]
+	n := num(int64([]int{0, 3, 7, 8}[g.R.Intn(4)]))
+	op := []string{"=", "!=", "<", "<=", ">", ">="}[g.R.Intn(6)]
+	var e *xast.Expr
+	if g.R.Intn(2) == 0 {
+		e = bin(op, operand, n)
+	} else {
+		e = bin(op, n, operand)
+	}
+	if g.R.Intn(4) == 0 {
+		e = call("not", e)
+	}
+	return e
+}
+
 // ScaleDoc builds documents past the usual buffer / counter thresholds (64, 256): kind 0 = one parent with 258-300
 // children (mixed kinds, an attribute here and there), kind 1 = a chain of 66-72 nested elements with a text at the
 // bottom and a sibling here and there, kind 2 = one element with 66-70 attributes and 66-70 element children.
@@ -147,10 +176,11 @@ func (g *G) ScaleDoc(kind int) *vdoc.Doc {
 	switch kind {
 	case 0:
 		last := ""
-		for i, n := 0, 258+g.R.Intn(43); i < n; i++ {
+		// at least 257 children NAMED a (8-bit position counters wrap at 256)
+		for i, n := 0, 360+g.R.Intn(43); i < n; i++ {
 			switch r := g.R.Intn(12); {
-			case r < 9 || last == "text":
-				nodes = append(nodes, vdoc.Node{K: "elem", N: g.pick([]string{"a", "a", "b"}), P: 2})
+			case r < 10 || last == "text":
+				nodes = append(nodes, vdoc.Node{K: "elem", N: g.pick([]string{"a", "a", "a", "a", "a", "a", "a", "b"}), P: 2})
 				last = "elem"
 				if g.R.Intn(8) == 0 {
 					nodes = append(nodes, vdoc.Node{K: "attr", N: "id", P: len(nodes), V: fmt.Sprint(i)})
